@@ -5,7 +5,7 @@
    goroutines are all inputs, so "forall ins" is "for every coordinator script, handler behaviour and schedule",
    over any number of successive Consume calls.  The acceptors [hook_ok] / [identity_ok] are in C07/Spec.v. *)
 From Coq Require Import List ZArith String.
-From SV Require Import C07.Model C07.Spec C07.Corr C07.ProofsHook C07.ProofsId C07.ProofsOffsets C07.ProofsEnds C07.ProofsCorr C07.ProofsJoin.
+From SV Require Import C07.Model C07.Spec C07.Corr C07.ProofsHook C07.ProofsId C07.ProofsOffsets C07.ProofsEnds C07.ProofsCorr C07.ProofsJoin C07.ProofsReturns.
 From SV Require Import Gen.GoInt Gen.DecTypes Gen.DecC07.
 Import ListNotations.
 Open Scope Z_scope.
@@ -121,3 +121,30 @@ Theorem c07_tie_heartbeat : forall cf w v code,
   end.
 Proof. exact tie_heartbeat. Qed.
 Print Assumptions c07_tie_heartbeat.
+
+(* newConsumerGroupClaim's error test (regenerated as DecC07.claim_start) decides exactly what the model's claim_try does. *)
+Theorem c07_tie_claim_start : forall cf pom lo hi a1 a2 e1 e2,
+  gerr_eqb e1 ENil = false -> gerr_eqb e1 (EK 1) = false -> gerr_eqb e2 ENil = false ->
+  let o := next_offset cf pom in
+  let script := [(tt, consume_result lo hi a1 e1 o); (tt, consume_result lo hi a2 e2 (c_initial cf))] in
+  match claim_start o script (c_initial cf) with
+  | (off, _, ExFall) => claim_try cf pom lo hi a1 a2 = Some off
+  | (_, _, ExReturn (_, err)) => claim_try cf pom lo hi a1 a2 = None /\ err <> ENil
+  | _ => False
+  end.
+Proof. exact tie_claim_start. Qed.
+Print Assumptions c07_tie_claim_start.
+
+(* Consume returns.  [winding w]: the session context is done and Consume has not returned (waiting on the context with it
+   done, releasing, final commit, stopping the heartbeat).  From every reachable such state: no step of the member or of a
+   claim goroutine increases the measure [mu] (claims not yet exited + commit attempts left + phase rank), and at most [mu w]
+   further steps (Consume's own and those of the claim goroutines still alive, for any answers to the final commits) take
+   Consume to its return.  Premise, built into the model: a handler's ConsumeClaim returns once its claim's Messages() is
+   closed (IClaimReturn is enabled when the session is ending); a handler that never returns is outside this statement. *)
+Theorem c07_consume_returns : forall cf store log ins,
+  let w := final cf (init_world store log) ins in
+  winding w ->
+  (forall i, (mu cf (fst (step cf w i)) <= mu cf w)%nat) /\
+  exists ins', (List.length ins' <= mu cf w)%nat /\ w_phase (final cf w ins') = PIdle /\ exists r, In (EvReturn r) (trace cf w ins').
+Proof. exact consume_returns_holds. Qed.
+Print Assumptions c07_consume_returns.
